@@ -327,18 +327,23 @@ func (s *Service) accountsForEpochWithFilter(ctx context.Context, epoch phase0.E
 		api.ValidatorStateWithdrawalDone:     0,
 	}
 
+	// Obtain the public keys and the accounts together so that they belong to the same refresh;
+	// both are replaced rather than altered by a refresh so can be used without holding the lock.
 	s.mutex.RLock()
 	pubKeys := s.pubKeys
+	accounts := s.accounts
 	s.mutex.RUnlock()
 
 	validators := s.validatorsManager.ValidatorsByPubKey(ctx, pubKeys)
 	validatingAccounts := make(map[phase0.ValidatorIndex]e2wtypes.Account, len(validators))
-	s.mutex.RLock()
 	for index, validator := range validators {
 		state := api.ValidatorToState(validator, nil, epoch, s.farFutureEpoch)
 		stateCount[state]++
 		if filterFunc(state) {
-			account := s.accounts[validator.PublicKey]
+			account, exists := accounts[validator.PublicKey]
+			if !exists {
+				continue
+			}
 			s.log.Trace().
 				Str("name", account.Name()).
 				Str("public_key", fmt.Sprintf("%x", account.PublicKey().Marshal())).
@@ -353,7 +358,6 @@ func (s *Service) accountsForEpochWithFilter(ctx context.Context, epoch phase0.E
 				Msg(fmt.Sprintf("Non-%s account", strings.ToLower(accountType)))
 		}
 	}
-	s.mutex.RUnlock()
 
 	// Update metrics if this is the current epoch.
 	if epoch == s.currentEpochProvider.CurrentEpoch() {
@@ -388,8 +392,10 @@ func (s *Service) accountsForEpochByIndexWithFilter(ctx context.Context, epoch p
 	))
 	defer span.End()
 
+	// Obtain the public keys and the accounts together so that they belong to the same refresh.
 	s.mutex.RLock()
 	pubKeys := s.pubKeys
+	accounts := s.accounts
 	s.mutex.RUnlock()
 
 	indexPresenceMap := make(map[phase0.ValidatorIndex]bool)
@@ -404,9 +410,9 @@ func (s *Service) accountsForEpochByIndexWithFilter(ctx context.Context, epoch p
 		}
 		state := api.ValidatorToState(validator, nil, epoch, s.farFutureEpoch)
 		if filterFunc(state) {
-			s.mutex.RLock()
-			validatingAccounts[index] = s.accounts[validator.PublicKey]
-			s.mutex.RUnlock()
+			if account, exists := accounts[validator.PublicKey]; exists {
+				validatingAccounts[index] = account
+			}
 		}
 	}
 
